@@ -78,6 +78,29 @@ class Sym:
         return hash(("Sym", self.name))
 
 
+class NeedConcrete(AnalysisError):
+    """the operation (a regular expression ...) cannot be given an abstract meaning on a name of unknown text; the caller may
+    decide it on representative names instead"""
+
+
+class RegexV:
+    def __init__(self, pattern, flags=0):
+        import re
+        self.pattern = pattern
+        try:
+            self.rx = re.compile(pattern, flags)
+        except re.error as e:
+            raise AnalysisError("invalid regular expression %r: %s" % (pattern, e))
+
+    def __repr__(self):
+        return "re(%r)" % self.pattern
+
+
+class MatchV:
+    def __init__(self, m):
+        self.m = m
+
+
 class Pos:
     """a character position: exactly `lo`, or some unknown position >= lo (it lies behind a name of unknown length)"""
 
@@ -190,6 +213,7 @@ class StringEval:
         self.module = func.module
         self.strip_as_prefix = strip_as_prefix
         self.events = []      # ('strip', node, charset, detail) | ('guard', node, value) | ('cut', node, detail)
+        self.called = []      # repository functions evaluated (entry, recursion, helpers)
         self.producer = None  # ast node of the expression that produced the returned value
         self.depth = 0
 
@@ -202,6 +226,8 @@ class StringEval:
         if func.cls is not None:
             raise AnalysisError("call of the method %s outside the fragment" % func.qualname)
         self.depth += 1
+        if func not in self.called:
+            self.called.append(func)
         saved = (self.cur, self.module, getattr(self, "env_src", None))
         if self.depth > self.MAX_DEPTH:
             raise AnalysisError("recursion depth exceeded in %s" % func.qualname)
@@ -356,7 +382,7 @@ class StringEval:
             return len(v.parts) > 0
         if isinstance(v, (list, tuple, dict)):
             return len(v) > 0
-        if isinstance(v, Sym):
+        if isinstance(v, (Sym, MatchV, RegexV)):
             return True
         raise AnalysisError("condition of unknown truth value%s" % ((": " + ast.unparse(node)) if node is not None else ""))
 
@@ -381,13 +407,37 @@ class StringEval:
         if r is not None and r[0] == "func":
             return ("func", r[1])
         if r is not None and r[0] == "const":
+            rx = self.regex_literal(r[2], r[1])
+            if rx is not None:
+                return rx
             v = self.folder.fold(r[2], r[1])
             if isinstance(v, Unknown):
                 raise AnalysisError("global %s does not fold to a constant" % e.id)
             return self.lift(v)
-        if e.id in ("len", "str", "isinstance", "int"):
+        if e.id == "re" and self.module.imports.get("re") == ("re", None):
+            return ("remodule",)
+        if e.id in ("len", "str", "isinstance", "int", "list", "tuple"):
             return ("builtin", e.id)
         raise AnalysisError("%s: name %s outside the fragment" % (self.cur.qualname, e.id))
+
+    def regex_literal(self, expr, module):
+        """re.compile(<constant pattern>[, constant flags]) -> RegexV"""
+        if not (isinstance(expr, ast.Call) and isinstance(expr.func, ast.Attribute) and expr.func.attr == "compile"
+                and isinstance(expr.func.value, ast.Name) and expr.func.value.id == "re" and expr.args):
+            return None
+        pat = self.folder.fold(expr.args[0], module)
+        if not isinstance(pat, str):
+            raise AnalysisError("regular expression pattern is not a constant string")
+        flags = 0
+        if len(expr.args) > 1 or expr.keywords:
+            import re
+            fe = expr.args[1] if len(expr.args) > 1 else expr.keywords[0].value
+            names = [n.attr for n in ast.walk(fe) if isinstance(n, ast.Attribute)]
+            if not names or any(not hasattr(re, n) for n in names) or any(not isinstance(n, (ast.Attribute, ast.Name, ast.BinOp, ast.BitOr, ast.Load)) for n in ast.walk(fe)):
+                raise AnalysisError("regular expression flags outside the fragment")
+            for n in names:
+                flags |= int(getattr(re, n))
+        return RegexV(pat, flags)
 
     def lift(self, v):
         from .consts import Ref
@@ -410,6 +460,25 @@ class StringEval:
 
     def x_List(self, e, env):
         return [self.expr(x, env) for x in e.elts]
+
+    def x_ListComp(self, e, env):
+        if len(e.generators) != 1 or e.generators[0].is_async:
+            raise AnalysisError("nested comprehension outside the fragment")
+        g = e.generators[0]
+        it = self.expr(g.iter, env)
+        if not isinstance(it, (list, tuple)):
+            raise AnalysisError("comprehension over a non-list outside the fragment")
+        out = []
+        sub = dict(env)
+        saved = dict(self.env_src)
+        for x in it:
+            self.assign(g.target, x, sub, g.iter)
+            if all(self.truth(self.expr(c, sub), c) for c in g.ifs):
+                out.append(self.expr(e.elt, sub))
+        self.env_src = saved
+        return out
+
+    x_GeneratorExp = x_ListComp
 
     def x_JoinedStr(self, e, env):
         out = []
@@ -758,9 +827,70 @@ class StringEval:
                 raise AnalysisError("len() of a string of unknown length")
             if fn[1] == "str" and len(args) == 1:
                 return self.as_text(args[0])
+            if fn[1] in ("list", "tuple") and len(args) <= 1:
+                v = args[0] if args else []
+                if isinstance(v, (list, tuple)):
+                    return list(v) if fn[1] == "list" else tuple(v)
         raise AnalysisError("call outside the fragment: %s" % ast.unparse(e)[:60])
 
+    def regex_call(self, rx, name, args, node):
+        import re
+        def text(v):
+            v = S(v)
+            if not v.concrete():
+                raise NeedConcrete("regular expression %r applied to a name of unknown text" % rx.pattern)
+            return v.text()
+        if name in ("findall", "match", "fullmatch", "search", "split") and len(args) == 1:
+            t = text(args[0])
+            r = getattr(rx.rx, name)(t)
+            if name == "findall":
+                return [SStr([x]) if isinstance(x, str) else tuple(SStr([y]) for y in x) for x in r]
+            if name == "split":
+                return [SStr([x]) if x is not None else None for x in r]
+            return MatchV(r) if r is not None else None
+        if name == "sub" and 2 <= len(args) <= 3:
+            repl = S(args[0])
+            if not repl.concrete():
+                raise AnalysisError("regular expression replacement is not a constant string")
+            count = args[2] if len(args) == 3 else 0
+            if not isinstance(count, int):
+                raise AnalysisError("regular expression count is not a constant")
+            return SStr([rx.rx.sub(repl.text(), text(args[1]), count=count)])
+        if name == "finditer" and len(args) == 1:
+            return [MatchV(m) for m in rx.rx.finditer(text(args[0]))]
+        raise AnalysisError("regular expression method %s outside the fragment" % name)
+
     def method(self, recv, name, args, node):
+        if isinstance(recv, RegexV):
+            return self.regex_call(recv, name, args, node)
+        if recv == ("remodule",):
+            if name == "compile" and args and isinstance(args[0], SStr) and args[0].concrete() and len(args) == 1:
+                return RegexV(args[0].text())
+            if args and isinstance(args[0], SStr) and args[0].concrete():
+                return self.regex_call(RegexV(args[0].text()), name, args[1:], node)
+            raise AnalysisError("re.%s with a non-constant pattern outside the fragment" % name)
+        if isinstance(recv, MatchV):
+            m = recv.m
+            if name == "group" and all(isinstance(a, int) for a in args):
+                r = m.group(*args)
+                if isinstance(r, tuple):
+                    return tuple(SStr([x]) if x is not None else None for x in r)
+                return SStr([r]) if r is not None else None
+            if name == "groups" and not args:
+                return tuple(SStr([x]) if x is not None else None for x in m.groups())
+            if name in ("start", "end") and all(isinstance(a, int) for a in args):
+                return getattr(m, name)(*args)
+            if name == "span" and all(isinstance(a, int) for a in args):
+                return m.span(*args)
+            raise AnalysisError("match method %s outside the fragment" % name)
+        if isinstance(recv, list):
+            if name == "append" and len(args) == 1:
+                recv.append(args[0])
+                return None
+            if name == "extend" and len(args) == 1 and isinstance(args[0], (list, tuple)):
+                recv.extend(args[0])
+                return None
+            raise AnalysisError("list method %s outside the fragment" % name)
         if isinstance(recv, dict):
             if name == "get" and 1 <= len(args) <= 2:
                 return self.dict_get(recv, args[0], args[1] if len(args) > 1 else None)
@@ -832,6 +962,18 @@ class StringEval:
                 else:
                     i += 1
             return c
+        if name in ("split", "rsplit") and (not args or args[0] is None):
+            out, cur = [], []
+            for p_ in s.parts:
+                if isinstance(p_, str) and p_.isspace():
+                    if cur:
+                        out.append(SStr(cur))
+                        cur = []
+                else:
+                    cur.append(p_)
+            if cur:
+                out.append(SStr(cur))
+            return out
         if name in ("split", "rsplit") and 1 <= len(args) <= 2:
             sep = S(args[0])
             if len(sep.parts) == 0 or (sep.concrete() and all(c in IDENT_CHARS for c in sep.text())):
